@@ -35,7 +35,7 @@ pub fn run(tier: Tier) -> i32 {
 
     // ---------------------------------------------------------------- E4 circular
     {
-        let nmax = tier.pick(4usize, 7usize);
+        let nmax = tier.pick(5usize, 7usize);
         let name = format!("E4/circular/dict=1..{}", nmax);
         if ctx.may_start(&name) {
             let t0 = Instant::now();
@@ -58,7 +58,7 @@ pub fn run(tier: Tier) -> i32 {
     }
     // ---------------------------------------------------------------- E4 accumulating
     {
-        let lmax = tier.pick(8usize, 13usize);
+        let lmax = tier.pick(10usize, 13usize);
         let name = format!("E4/accumulating/history<={}", lmax);
         if ctx.may_start(&name) {
             let t0 = Instant::now();
@@ -72,7 +72,7 @@ pub fn run(tier: Tier) -> i32 {
 
     // ---------------------------------------------------------------- E1: invalid programs, raw decoder on tiny dictionaries
     {
-        let nmax = tier.pick(5usize, 12usize);
+        let nmax = tier.pick(7usize, 12usize);
         let name = format!("E1/raw/dict=1..{}", nmax);
         if ctx.may_start(&name) {
             let t0 = Instant::now();
